@@ -235,9 +235,10 @@ async def stream(
 ) -> AsyncIterator[Any]:
     # This dirty trickery is for cases when the server thinks too slowly before
     # sending the headers, but the stopper is already set during the initial wait.
+    task = asyncio.current_task()  # NB: here, not in the callback --- there is no current task in callbacks.
+    assert task is not None  # for type-checkers; this is `async def`, so always in a task.
+
     def request_cancel_callback(_: aiotasks.Future) -> None:
-        task = asyncio.current_task()
-        assert task is not None  # for type-checkers; this is `async def`, so always in a task.
         task.cancel()
 
     if stopper is not None and not stopper.done():
